@@ -713,6 +713,24 @@ func (ex *Exec) instr(in ssa.Instruction) {
 	vc := ex.vc
 	h := ex.cur.heap
 	g := ex.cur.guard
+	if ge := vc.ctx.guardExpr; ge != "" && ex.pass == 2 {
+		// "effects guarded": materialising a world-reaching function value is as
+		// good as calling it (it may be installed in a table): must be dead under the guard
+		var callee ssa.Value
+		if c, ok := in.(*ssa.Call); ok {
+			callee = c.Call.Value
+		}
+		for _, op := range in.Operands(nil) {
+			if op == nil || *op == nil || *op == callee {
+				continue
+			}
+			if f, ok := (*op).(*ssa.Function); ok && (deniedPrimitive(f) || vc.ctx.worldReach[f]) {
+				if t, err := vc.entryEnv.Bool(ge); err == nil {
+					ex.oblig("effect.guard", "", "value "+f.Name(), in.Pos(), fmt.Sprintf("(=> %s (not %s))", g, t), []string{ex.prop})
+				}
+			}
+		}
+	}
 	switch i := in.(type) {
 	case *ssa.DebugRef:
 	case *ssa.Alloc:
@@ -908,6 +926,13 @@ func (ex *Exec) instr(in ssa.Instruction) {
 	case *ssa.MakeChan:
 		ex.vals[i] = &Val{T: ex.newRef("mkchan")}
 	case *ssa.MakeClosure:
+		if ge := vc.ctx.guardExpr; ge != "" && ex.pass == 2 {
+			if fn, ok := i.Fn.(*ssa.Function); ok && vc.ctx.worldReach[fn] {
+				if t, err := vc.entryEnv.Bool(ge); err == nil {
+					ex.oblig("effect.guard", "", "closure "+fn.Name(), i.Pos(), fmt.Sprintf("(=> %s (not %s))", g, t), []string{ex.prop})
+				}
+			}
+		}
 		r := ex.newRef("clo." + i.Name())
 		v := &Val{T: r, Fn: i.Fn.(*ssa.Function)}
 		for _, b := range i.Bindings {
